@@ -588,6 +588,18 @@ void HttpRequest::read()
 	_proto = _command.substring(j + 1).trim();
 
 	readHeaders();
+
+	if (hasHeader("Transfer-Encoding"))
+	{
+		// a request whose last transfer coding is not chunked has no determinable length (RFC 7230 3.3.3 rule 3):
+		// do not take it for a request without body (or with a Content-Length body) - give the connection up
+		Array<String> codings = header("Transfer-Encoding").toLowerCase().split(',');
+		if (codings.last().trimmed() != "chunked")
+		{
+			_socket->close();
+			return;
+		}
+	}
 	
 	if (header("Expect") == "100-continue")
 	{
